@@ -2567,8 +2567,12 @@ class ProvDocument(ProvBundle):
             # Writing to a temporary file in the destination's directory and
             # moving it into place, so that the destination is either written
             # completely or left untouched
+            # (the directory as the operating system resolves it for the
+            # destination - '..' behind a symbolic link included, which
+            # abspath() would cut away lexically)
             fd, name = tempfile.mkstemp(
-                dir=os.path.dirname(os.path.abspath(path)), prefix=".prov-tmp-"
+                dir=os.path.realpath(os.path.dirname(path) or os.curdir),
+                prefix=".prov-tmp-",
             )
             try:
                 with os.fdopen(fd, "wb") as stream:
